@@ -1,8 +1,17 @@
 from kvchecks import kv_main, kv_replay
 
 
+def concurrent_part(ctx):
+    """Write must not modify the caller's batch: only visible when another writer's Put is merged into a Write leader."""
+    from concfam import conc_runs, judge
+    n = 10 if ctx.quick else 80
+    jobs = [{"seed": ctx.seed * 1000 + i, "tag": "c20", "writers": 3 + i % 3, "readers": 1, "n": 150 if ctx.quick else 400}
+            for i in range(n)]
+    judge(ctx, conc_runs(ctx, jobs), "C20", cfg="ConcTraceLin.cfg")
+
+
 def main(ctx):
-    return kv_main(ctx, "c20")
+    return kv_main(ctx, "c20", pre=concurrent_part)
 
 
 def replay(ctx, path):
